@@ -22,3 +22,14 @@ package inspector
 //@   requires ghost(r.Body).backing == 0
 //@   modifies r.Body, profile.ModelName, profile.ModelCapabilities, ghost backing, ghost released, ghost remaining
 //@   ensures ghost(r.Body).backing == 0 || !ghost(ghost(r.Body).backing).released
+
+// the debugging inspector used by the translators (writes log files; touches nothing the proofs talk about)
+//@ func (s *Simple) Enabled
+//@   property C13
+//@   trusted
+//@ func (s *Simple) LogResponse
+//@   property C13
+//@   trusted
+//@ func (s *Simple) LogRequest
+//@   property C13
+//@   trusted
